@@ -51,11 +51,17 @@ for file in {t[0] for t in top}:
     orig[file] = open(os.path.join(W, file)).read().split("\n")
 
 
+skip_names = {}           # function key -> names left alone in that function (shorthand struct init, inline format args, ...)
+
+
 def render(excluded):
     for file, lines in orig.items():
         out = list(lines)
         for (fl, a, b, key, ns) in top:
             if fl != file or key in excluded:
+                continue
+            ns = ns - skip_names.get(key, set())
+            if not ns:
                 continue
             pat = re.compile(r"(?<![\w.'])(%s)(?![\w(!'])(?!\s*::)" % "|".join(sorted(map(re.escape, ns), key=len, reverse=True)))
             for i in range(a - 1, min(b, len(out))):
@@ -66,21 +72,31 @@ def render(excluded):
 
 
 excluded = set()
-for it in range(12):
+for it in range(16):
     render(excluded)
     r = subprocess.run(["cargo", "check", "--offline", "--workspace", "--message-format=short"], cwd=W, stderr=subprocess.PIPE, stdout=subprocess.PIPE, text=True,
                        env=dict(os.environ, CARGO_TARGET_DIR=os.path.join(W, "target"), CARGO_NET_OFFLINE="true"))
-    errs = re.findall(r"^([^\s:]+\.rs):(\d+):\d+: error", r.stderr, re.M)
+    errs = re.findall(r"^([^\s:]+\.rs):(\d+):\d+: error(.*)$", r.stderr, re.M)
     if r.returncode == 0:
         break
     new = set()
-    for file, line in errs:
+    for file, line, msg in errs:
         line = int(line)
         for (fl, a, b, key, ns) in top:
             if W.rstrip("/") + "/" + fl == os.path.abspath(os.path.join(W, file)) or fl == file or fl.endswith(file) or file.endswith(fl):
                 if a <= line <= b:
-                    new.add(key)
-    if not new:
+                    # first try to leave only the offending names alone; the whole function only when none can be named
+                    try:
+                        src = open(os.path.join(W, fl)).read().split("\n")[line - 1]
+                    except Exception:
+                        src = ""
+                    cand = {m[:-2] for m in re.findall(r"\b(\w+)_q\b", msg + " " + src) and re.findall(r"\b(\w+_q)\b", msg + " " + src)} & (ns - skip_names.get(key, set()))
+                    cand |= set(re.findall(r"`(\w+)`", msg)) & (ns - skip_names.get(key, set()))
+                    if cand and it < 8:
+                        skip_names.setdefault(key, set()).update(cand)
+                    else:
+                        new.add(key)
+    if not new and not any(skip_names.values()):
         print("cannot attribute errors:\n" + r.stderr[-3000:])
         sys.exit(2)
     excluded |= new
@@ -88,4 +104,4 @@ for it in range(12):
 else:
     print("did not converge")
     sys.exit(2)
-print("renamed %d functions, left %d unchanged" % (len(top) - len(excluded), len(excluded)))
+print("renamed %d functions (%d of them partially), left %d unchanged" % (len(top) - len(excluded), sum(1 for k, v in skip_names.items() if v and k not in excluded), len(excluded)))
